@@ -578,7 +578,30 @@ def i_verify_string(I, args, ins):
     id = ctx.concretize(id, 0, 3, 'id')
     if info[1] != (kind, id):
         return False
-    return I.eq(info[2], content)
+    from .httpstubs import rope_eq
+    return rope_eq(I, info[2], content)
+
+
+@intrinsic('verifSignedQueryOctets')
+def i_signed_query_octets(I, args, ins):
+    """verifSignedQueryOctets(rawQuery, param): the text from 'param=' up to the last '&Signature=' as it stands in the query."""
+    from .httpstubs import _atoms, _atoms_to_raw
+    raw, param = args
+    if not isinstance(param, str):
+        raise Inconclusive('verifSignedQueryOctets parameter name')
+    if isinstance(raw, str):
+        at = [('c', ch) for ch in raw]
+    else:
+        at = _atoms(raw)
+
+    def runs(text):
+        n = len(text)
+        return [i for i in range(len(at) - n + 1) if all(at[i + j] == ('c', text[j]) for j in range(n))]
+    starts = [i for i in runs(param + '=') if i == 0 or at[i - 1] == ('c', '&')]
+    ends = runs('&Signature=')
+    if not starts or not ends or ends[-1] < starts[0]:
+        return ''
+    return _atoms_to_raw(at[starts[0]:ends[-1]])
 
 
 @intrinsic('verifParseAssertionBytes')
